@@ -133,9 +133,9 @@ theorem spec_error_changes_nothing (s : Spec.State) (op : Op) (h : (Spec.step li
     (Spec.step likeFn fnFam s op).2 = s := spec_step_err_unchanged likeFn fnFam s op h
 
 /-- **The store follows the specification along histories whatever plans serve the calls**: reads may be
-    served by any index (they cannot change the state), bulk updates and deletes may select their
-    documents through any index plan on the key domain (no window), every other operation is
-    unrestricted; after any such history the store represents exactly the specification's state and
+    served by any index (they cannot change the state), bulk updates, deletes and `CreateCollectionByQuery`
+    may select their documents through any index plan on the key domain (no window), every other
+    operation is unrestricted; after any such history the store represents exactly the specification's state and
     every call failed iff the specification's call failed.  (`refine_history` adds equality of the
     answers for the calls served by a full scan.) -/
 theorem states_refine_any_plan (ops : List Op) (hok : ∀ op ∈ ops, OpOK op) (hdom : AllInDomain likeFn fnFam ops []) :
